@@ -120,7 +120,19 @@ FUNCS["active_rank1_scalar"] = dict(
     scalars=("psucc", "sigma"), opaque=("parent", "pc", "A", "invA", "ancestors_fitness"),
     supplied={}, dicts=(), params={"individual": None, "p_succ": ("v_p_succ", "T")},
     result=("scalars", ("psucc", "sigma")))
-ORDER = ["plain_computeParams", "plain_update_scalar", "active_computeParams", "mo_computeParams", "active_rank1_scalar"]
+FUNCS["active_p_succ"] = dict(
+    cls="StrategyActiveOnePlusLambda", method="update",
+    header="Definition gen_active_p_succ (s_pfit : option (fitness (T:=T))) (v_population : list (aind (T:=T))) : option T",
+    placeholder="active_p_succ Op s_pfit v_population",
+    inputs={"parent.fitness": ("(match s_pfit with Some pf => pf | None => mkFit [] None end)", "fit")},
+    scalars=(), opaque=("condition_number", "i_I_R"),
+    supplied={}, dicts=(), params={"population": ("v_population", "list ind")},
+    ind_fit="(ai_fit %s)", cmp=("c_le", "c_lt"), valid="(f_valid %s)",
+    hasattr_parent_fitness="(match s_pfit with Some _ => true | None => false end)",
+    capture=("_rank1update", 2, 1),      # method, number of arguments, index of the captured argument
+    result=("capture",))
+ORDER = ["plain_computeParams", "plain_update_scalar", "active_computeParams", "mo_computeParams", "active_rank1_scalar",
+         "active_p_succ"]
 
 # module-level bindings the translation of sqrt / exp / numpy.* relies on
 MATH_NAMES = {"sqrt": "osqrt", "exp": "oexp"}
@@ -165,6 +177,10 @@ class Tr(object):
             else:
                 self.locals[p] = v[1]
         self.dict_ok = set(d for d in spec["dicts"] if not d.startswith("self."))
+        self.top_level = None
+        if spec.get("capture"):
+            self.locals["_captured"] = "optT"
+            self.lines.append("let v__captured := None in")
 
     # ---------------- expressions ----------------
     def toT(self, c, t, node):
@@ -213,7 +229,7 @@ class Tr(object):
             if e.attr == "fitness":
                 c, t = self.ex(e.value)
                 if t == "ind":
-                    return "(snd %s)" % c, "fit"
+                    return self.spec.get("ind_fit", "(snd %s)") % c, "fit"
             refuse(e, "attribute of a computed object")
         parts = d.split(".")
         if parts[0] == "self":
@@ -222,7 +238,10 @@ class Tr(object):
                 return self.attrs[key]
             refuse(e, "read of self.%s, which is not a declared scalar input / not yet assigned by the slice" % key)
         if len(parts) == 2 and parts[1] == "fitness" and self.locals.get(parts[0]) == "ind":
-            return "(snd v_%s)" % parts[0], "fit"
+            return self.spec.get("ind_fit", "(snd %s)") % ("v_" + parts[0]), "fit"
+        if len(parts) == 3 and parts[1] == "fitness" and parts[2] == "valid" and self.locals.get(parts[0]) == "ind" \
+                and self.spec.get("valid"):
+            return self.spec["valid"] % (self.spec["ind_fit"] % ("v_" + parts[0])), "bool"
         refuse(e, "attribute %s" % d)
 
     def ex(self, e):
@@ -290,8 +309,8 @@ class Tr(object):
             b, tb = self.ex(e.comparators[0])
             op = type(e.ops[0])
             if ta == "fit" and tb == "fit":
-                m = {ast.LtE: ("lex_le", a, b), ast.Lt: ("lex_lt", a, b), ast.GtE: ("lex_le", b, a),
-                     ast.Gt: ("lex_lt", b, a)}.get(op)
+                le_, lt_ = self.spec.get("cmp", ("lex_le", "lex_lt"))
+                m = {ast.LtE: (le_, a, b), ast.Lt: (lt_, a, b), ast.GtE: (le_, b, a), ast.Gt: (lt_, b, a)}.get(op)
                 if m is None:
                     refuse(e, "comparison %s of fitnesses" % op.__name__)
                 return "(%s Op %s %s)" % m, "bool"
@@ -319,6 +338,28 @@ class Tr(object):
             return "(if %s then %s else %s)" % (c, a, b), ta
         if isinstance(e, ast.Call):
             return self.call(e)
+        if isinstance(e, ast.ListComp):
+            # [x for x in l if c]  =  filter
+            g = e.generators
+            if len(g) != 1 or g[0].is_async or not isinstance(g[0].target, ast.Name) or len(g[0].ifs) != 1 \
+                    or not isinstance(e.elt, ast.Name) or e.elt.id != g[0].target.id:
+                refuse(e, "list comprehension other than [x for x in l if c]")
+            it, tit = self.ex(g[0].iter)
+            if tit != "list ind":
+                refuse(e, "comprehension over a %s" % tit)
+            x = g[0].target.id
+            if x in self.locals or x in self.opaque_locals:
+                refuse(e, "comprehension variable shadows a local")
+            self.locals[x] = "ind"
+            self.in_fun += 1
+            try:
+                c, t = self.ex(g[0].ifs[0])
+            finally:
+                self.in_fun -= 1
+                del self.locals[x]
+            if t != "bool":
+                refuse(e, "filter condition of type %s" % t)
+            return "(filter (fun v_%s => %s) %s)" % (x, c, it), "list ind"
         refuse(e, "expression outside the grammar")
 
     def call(self, e):
@@ -336,6 +377,9 @@ class Tr(object):
                 refuse(e, "%s is not math.%s in this module" % (base, base))
             c, t = self.ex(e.args[0])
             return "(%s Op %s)" % (MATH_NAMES[base], self.toT(c, t, e.args[0])), "T"
+        if d == "hasattr" and len(e.args) == 2 and dotted(e.args[0]) == "self.parent" and isinstance(e.args[1], ast.Constant) \
+                and e.args[1].value == "fitness" and self.spec.get("hasattr_parent_fitness") and not self.mod.rebinds("hasattr"):
+            return self.spec["hasattr_parent_fitness"], "bool"
         if d == "float" and len(e.args) == 1 and not self.mod.rebinds("float"):
             c, t = self.ex(e.args[0])
             return self.toT(c, t, e.args[0]), "T"
@@ -506,7 +550,22 @@ class Tr(object):
                 if not ok:
                     refuse(s, "sort other than sort(key=lambda ind: ind.fitness, reverse=True)")
                 v = "v_" + c.func.value.id
-                self.bind(v, "sort_desc (fun a b => lex_lt Op (snd a) (snd b)) %s" % v)
+                fit = self.spec.get("ind_fit", "(snd %s)")
+                self.bind(v, "sort_desc (fun a b => %s Op %s %s) %s" % (self.spec.get("cmp", ("lex_le", "lex_lt"))[1],
+                                                                      fit % "a", fit % "b", v))
+                return
+            cap = self.spec.get("capture")
+            if cap and dotted(c.func) == "self." + cap[0] and not c.keywords and len(c.args) == cap[1] \
+                    and not any(isinstance(a, ast.Starred) for a in c.args):
+                if self.in_fun:
+                    refuse(s, "captured call inside a loop")
+                for i, a in enumerate(c.args):
+                    if i != cap[2] and not pure(a):
+                        refuse(s, "argument of the captured call is not side-effect free")
+                code, t = self.ex(c.args[cap[2]])
+                self.flush(s)
+                self.assigned.add("#captured")
+                self.bind("v__captured", "Some %s" % self.toT(code, t, s))
                 return
             refuse(s, "call statement")
         if isinstance(s, ast.If):
@@ -531,7 +590,7 @@ class Tr(object):
         t.dict_ok = set(self.dict_ok)
         return t
 
-    def carried(self, subs, node):
+    def carried(self, subs, node, loop=False):
         """names (locals / scalar attributes) bound in the sub-translations that were already bound before"""
         names = []
         for sb in subs:
@@ -545,9 +604,14 @@ class Tr(object):
         for n in names:
             if n.startswith("v_"):
                 if n[2:] not in self.locals:
-                    for sb in subs:     # a local first bound inside the block: usable afterwards only if all bind it
-                        sb.locals.pop(n[2:], None)
-                    self.opaque_locals.add(n[2:])
+                    # a local first bound inside the block: usable afterwards only if every branch binds it
+                    ts = set(sb.locals.get(n[2:]) for sb in subs)
+                    if loop or len(ts) != 1 or None in ts:
+                        self.opaque_locals.add(n[2:])
+                        continue
+                    self.opaque_locals.discard(n[2:])
+                    self.locals[n[2:]] = ts.pop()
+                    out.append(n)
                     continue
                 ts = set(sb.locals.get(n[2:]) for sb in subs)
                 if ts != {self.locals[n[2:]]}:
@@ -602,7 +666,7 @@ class Tr(object):
         if a.tests != self.tests:
             refuse(s, "matrix-side branch inside a loop")
         del a.locals[x]
-        names = self.carried([a], s)
+        names = self.carried([a], s, loop=True)
         if "v_" + x in names:
             refuse(s, "loop variable assigned in the body")
         if not names:
@@ -645,6 +709,8 @@ class Tr(object):
                 keep_lines, keep_closers = self.lines + t.lines, self.closers + t.closers
                 self.__dict__.update(t.__dict__)
                 self.lines, self.closers = keep_lines, keep_closers
+                if "#captured" in self.assigned and self.top_level == id(stmts):
+                    break
                 continue
             scalar = True
             if isinstance(s, (ast.Assign, ast.AugAssign)):
@@ -662,6 +728,8 @@ class Tr(object):
                 self.stmt_scalar(s)
             else:
                 self.opaque_stmt(s)
+            if "#captured" in self.assigned and self.top_level == id(stmts):
+                break       # the rest cannot change the captured value (exactly one call site: checked beforehand)
 
     # ---------------- result ----------------
     def finish(self, node):
@@ -688,6 +756,10 @@ class Tr(object):
                 c, ta = self.attrs[r[4]]
                 out = "(%s, %s)" % (out, self.toT(c, ta, node))
             return out
+        if r[0] == "capture":
+            if "#captured" not in self.assigned or self.tests:
+                refuse(node, "no call of self.%s found by the slice" % self.spec["capture"][0])
+            return "v__captured"
         if r[0] == "scalars":
             vals = []
             for a in r[1]:
@@ -840,8 +912,13 @@ def translate_function(mod, key):
                           ast.FunctionDef, ast.ClassDef, ast.Delete, ast.Raise, ast.Break, ast.Continue, ast.Await,
                           ast.NamedExpr, ast.Import, ast.ImportFrom)):
             refuse(n, "statement / expression outside the grammar")
+    if spec.get("capture"):
+        calls = [n for n in ast.walk(f) if isinstance(n, ast.Attribute) and n.attr == spec["capture"][0]]
+        if len(calls) != 1:
+            refuse(f, "%d references to %s" % (len(calls), spec["capture"][0]))
     tr = Tr(mod, spec)
     tr.closers = 0
+    tr.top_level = id(f.body)
     tr.block(f.body)
     res = tr.finish(f)
     body = "\n  ".join(tr.lines + [res]) + (" end" * tr.closers)
